@@ -3,7 +3,7 @@ CONSTANTS
   SPM = 60
   MPH = 60
   HPD = 24
-  DayCap = 3
+  DayCap = 31
   DayMod = 0
 INVARIANT Exact
 CHECK_DEADLOCK FALSE
